@@ -1,4 +1,12 @@
-(* C09: one-hot encoding, rounding, decoding and snapping of mixed parameters. *)
+(* C09: one-hot encoding, rounding, decoding and snapping of mixed parameters.
+   Contents, in order: round half to even; nearest element; arg-max; `decoded` and admissibility of the decode; task snapping;
+   length scales; the deterministic round trip; int lattice and soundness of the integer-feasible snap; then
+     - the stochastic decode at a one-hot vertex (rel_probs_onehot: the other categories get probability
+       1e-300/(1+n*1e-300), not zero; draw_onehot_iff / choose_draw_onehot_iff: the exact window of draws that returns the
+       encoded category) and the stochastic round trip decode_roundtrip / decode_roundtrip_iff / decode_roundtrip_uniform,
+       with decode_roundtrip_all_draws_refuted for the statement without the hypothesis on the draws;
+     - completeness of the integer-feasible snap (int_feasible_snap_complete, int_feasible_snap_complete_rows) and nbr_in_box;
+     - the categorical neighbour lattice (cat_lattice_spec, cat_lattice_NoDup, cat_lattice_length). *)
 From Coq Require Import List QArith ZArith Bool Arith Qround Qabs SetoidList Lia Lra Psatz Permutation Qpower.
 From LV Require Import Model.Domain Model.Decode Proofs.Domain.
 Import ListNotations.
